@@ -283,7 +283,7 @@ func runExecutorCase(rt *rapid.T, rec *simkit.Recorder, backend string, newRig f
 
 	rig, err := newRig(cas)
 	if err != nil {
-		rt.Fatalf("harness: %v", err)
+		rt.Fatalf("VERIF-INCONCLUSIVE harness: %v", err)
 	}
 	defer rig.close()
 
@@ -307,7 +307,7 @@ func runExecutorCase(rt *rapid.T, rec *simkit.Recorder, backend string, newRig f
 			clobbered = drawAction(rt, produced, &rc)
 		}
 		if err := rig.runAction(produced, stdout, ""); err != nil {
-			runFailure = fmt.Sprintf("harness: cannot perform the action: %v", err)
+			runFailure = fmt.Sprintf("VERIF-INCONCLUSIVE harness: cannot perform the action: %v", err)
 			return nil, fmt.Errorf("harness failure")
 		}
 		return &runner_pb.RunResponse{ExitCode: int64(exitCode)}, nil
@@ -343,7 +343,7 @@ func runExecutorCase(rt *rapid.T, rec *simkit.Recorder, backend string, newRig f
 		}
 		cur, err := rig.inputRoot()
 		if err != nil {
-			rt.Fatalf("harness: %v; script=%+v", err, sc)
+			rt.Fatalf("VERIF-INCONCLUSIVE harness: %v; script=%+v", err, sc)
 		}
 		if cur != nil && !equalTrees(cur, initial) {
 			rt.Fatalf("escaping command: the input root was touched: now %v; script=%+v", cur.render(), sc)
@@ -426,8 +426,11 @@ func runExecutorCase(rt *rapid.T, rec *simkit.Recorder, backend string, newRig f
 	// Outputs.
 	sc.Produced = produced.render()
 	final, err := rig.inputRoot()
-	if err != nil || final == nil {
-		rt.Fatalf("harness: cannot read the input root after Execute: %v; script=%+v", err, sc)
+	if err != nil {
+		rt.Fatalf("VERIF-INCONCLUSIVE harness: cannot read the input root after Execute: %v; script=%+v", err, sc)
+	}
+	if final == nil {
+		rt.Fatalf("the input root no longer exists after Execute; script=%+v", sc)
 	}
 	if !equalTrees(final, produced) {
 		rt.Fatalf("uploading outputs modified the input root: now %v; script=%+v", final.render(), sc)
